@@ -4,6 +4,7 @@ import threading
 
 
 class Job:
+    def prepare(self): pass
     def execute(self): pass
     def request_stop(self): pass
 
@@ -31,6 +32,10 @@ class Agent:
         return self._thread is not None and self._thread.is_alive()
 
     def execute(self):
+        # Stop requests from here on are meant for this run.
+        prepare = getattr(self._job, 'prepare', None)
+        if prepare is not None:
+            prepare()
         self._thread = threading.Thread(target=self._execute_and_call)
         self._thread.start()
         return self
